@@ -370,11 +370,21 @@ def plan(tier, seed):
             items.append(("def", ci, ii))
     for pi in range(len(class_positions())):
         items.append(("desc", pi))
-    return {"items": items, "chunksize": 4, "meta": {"contexts": [c[0] for c in ctxs], "inner_shapes": [i[0] for i in inners], "defaults": len(DEFAULTS), "second_default": [None, {"z": 0}], "class_positions": [p[0] for p in class_positions()], "descriptions": len(description_alphabet()), "exhaustive": True}}
+    # first use: one (context, shape, default) per process that has only imported the library (a falsy scalar and a container)
+    first = [("first", ci, ii, di) for ci in range(len(ctxs)) for ii in range(len(inners)) for di in (1, 10)]
+    return {"items": items, "pristine_items": first, "chunksize": 4, "meta": {"first_use_cases_in_pristine_processes": len(first), "contexts": [c[0] for c in ctxs], "inner_shapes": [i[0] for i in inners], "defaults": len(DEFAULTS), "second_default": [None, {"z": 0}], "class_positions": [p[0] for p in class_positions()], "descriptions": len(description_alphabet()), "exhaustive": True}}
 
 
 def work(item):
     st = runner.Stats()
+    if item[0] == "first":
+        cname, place, find, takes_d2 = contexts()[item[1]]
+        iname, make = inner_shapes()[item[2]]
+        d = DEFAULTS[item[3]]
+        check_default_case(st, cname + "/first-use", place, find, iname, make, d, None, rank=0)
+        check_default_case(st, cname + "/second-use", place, find, iname, make, DEFAULTS[(item[3] + 3) % len(DEFAULTS)], {"z": 0} if takes_d2 else None, rank=1)
+        docs.clear()
+        return st
     if item[0] == "def":
         cname, place, find, takes_d2 = contexts()[item[1]]
         iname, make = inner_shapes()[item[2]]
